@@ -136,6 +136,7 @@ PROPS = {
                   U('pyvc.regexstruct', 'tiling', 'parser.tiling'),
                   K("compiler.py::Compiler.visit_End"),
                   K("tokenize.py::Token.__getitem__"), K("tokenize.py::Token.__add__"),
+                  K("template.py::BaseTemplate.write@str"),
                   U('bounded.units', 'verbatim', 'B-VERBATIM'), U('bounded.units', 'attrs', 'B-ATTR')],
         "not_decided": ["match_tag field contracts, visit_Start / visit_Attribute(static) emitters (bounded only)",
                         "CR/CRLF normalisation in PageTemplate.parse (pending)",
@@ -281,7 +282,8 @@ PROPS = {
                       "conformance-tested); BOM table read from the live module on this (little-endian) "
                       "host; regex matches as uninterpreted functions of the searched text. Assumed "
                       "contract: read_xml_encoding (bytes regex body).",
-        "units": [K("utils.py::read_bytes"), K("utils.py::detect_encoding")],
+        "units": [K("utils.py::read_bytes"), K("utils.py::detect_encoding"),
+                  K("template.py::BaseTemplate.write@str"), K("template.py::BaseTemplate.write@bytes")],
         "not_decided": ["RE_META fixes the attribute order http-equiv before content (finding D16)",
                         "template.write/read/parse plumbing (pending)"],
         "assumptions": COMMON_ASSUMPTIONS + ["bytes are modelled as strings of code points 0..255"],
